@@ -179,9 +179,10 @@ func (f *file) asyncReadNow(b []byte, readSoFar int, readAll bool, cb AsyncCallb
 	}
 
 	// handles (readAll == false) and (readAll == true && readSoFar != len(b)).
-	if err == sonicerrors.ErrWouldBlock {
-		// If readAll == true then read some without errors.
-		// We schedule an asynchronous read.
+	if err == nil || err == sonicerrors.ErrWouldBlock {
+		// Either nothing is available right now, or readAll == true and we read
+		// some without errors but not everything. We schedule an asynchronous read
+		// for the rest; reporting success here would hand the caller a short read.
 		f.scheduleRead(readSoFar, cb)
 	} else {
 		cb(err, readSoFar)
@@ -238,7 +239,8 @@ func (f *file) asyncWriteNow(b []byte, wroteSoFar int, writeAll bool, cb AsyncCa
 	}
 
 	// Handles (writeAll == false) and (writeAll == true && wroteSoFar != len(b)).
-	if err == sonicerrors.ErrWouldBlock {
+	if err == nil || err == sonicerrors.ErrWouldBlock {
+		// err == nil here means a partial WriteAll: wait for the rest to be writable.
 		f.scheduleWrite(wroteSoFar, cb)
 	} else {
 		cb(err, wroteSoFar)
